@@ -420,6 +420,7 @@ func concCheck(t *testing.T, prop string) int {
 	rep.Cov["samples"] = samples[:min(len(samples), 5)]
 	rep.Cov["exhaustive"] = exhaustive
 	rep.Cov["scenarios"] = per
+	rep.Cov["race_pass"] = racePass(rep)
 	rep.Cov["method"] = "stateless preemption-bounded exploration under the gate scheduler: 2-3 requests are issued by concurrent driver threads after a sequential set-up; from the default (FIFO) schedule every placement of up to k PARK deviations (the running thread is suspended until nothing else can run) at operations on shared state (subscriber lock, subscriber pool, global counter lock, account database, CDR file table, dispatcher registration); each execution runs to completion, then every acknowledged session is updated and released; the observation (responses, balances, reservations, rating modes, records, references, counter) must equal that of some serial order of the same requests executed on the implementation itself"
 	rep.Assumptions = append(rep.Assumptions, "data races on plain memory between two gates are not visible to the cooperative scheduler; a separate free-running -race pass covers them (see DESIGN.md)", "2-3 in-flight requests; GOMAXPROCS is replaced by the scheduler")
 	return rep.Finish()
